@@ -1,642 +1,11 @@
 /-
-  C03 — the reader agrees with an independent decoder on valid xlsx files.
-
-  Property theorems only (namespace `Umya.Thm.C03`); helper lemmas in `Umya/Lemmas/Reader.lean` (unescaping),
-  `Umya/Lemmas/ReaderCell.lean` (string items, `decodeCell` field by field), `Umya/Lemmas/ReaderPos.lean` (positions).
-
-  What is proved here and what is not.  The file-level statement
-      `∀ x, ValidSml x → view (readPackage x) = Spec.decode x`
-  is NOT proved: there is no Lean model of the whole reader (zip access, every part reader, styles).
-  It is validated per file: the harness sends every part of every corpus / generated file to the
-  independent decoder `Umya.Spec.Sml.decode` (executed in Lean) and compares its view with the view of
-  the workbook the library loaded (translation validation).  The theorems below are the cell-level
-  rules, for ALL inputs of the stated shape:
-    * C03_attr / C03_text      the library's attribute / text unescaping returns the XML value;
-    * C03_cell                 a cell element of any type (t absent / n / s / str / b / e / inlineStr): the model
-                               of `Cell::set_attributes` does not panic and shows the value text, kind,
-                               formula, shared-formula group, style index and reference of `Spec.decodeCell`
-                               (one lemma per cell type: C03_cell_number, _shared_string, _str, _bool, _error,
-                               _inline_string; C03_string_item: `stringItem` = `rstText`);
-    * C03_positions            rows / cells without `r`: the model of the position rule of fix 8281a0c =
-                               the spec's `rowNumbers` / `fillRefs`, for every list of rows and cells;
-    * C03_shared_formula       a shared-formula child's reference tokens are translated exactly as the
-                               spec translates references (reference level, from C09_translate_ref; the
-                               master/child bookkeeping is validated by the oracle only);
-    * C03_cols                 `<col min max>` expansion.
-  Deviations of the code that are not fixed are shown by decided witnesses (`*_fails`: concrete cells on
-  which model and spec differ; each is replayed against the real reader as a boundary package).
+  C03 — the reader agrees with an independent decoder on valid xlsx files: all property theorems
+  (namespace `Umya.Thm.C03`).  This module only gathers the two theorem files, so that the audit
+  (`import Umya.Thm.C03`) sees every `C03_…` theorem:
+    * `Umya/Thm/C03Cell.lean`   channels (C03_attr, C03_text), one cell element (C03_cell, …), positions
+                                (C03_positions), column spans, shared-formula reference translation;
+    * `Umya/Thm/C03Sheet.lean`  the whole `<sheetData>` (C03_sheet, …), the shared-strings part (C03_sst),
+                                relationships / hyperlinks / merges, sheet list, defined names.
 -/
-import Umya.Lemmas.Reader
-import Umya.Lemmas.ReaderCell
-import Umya.Lemmas.ReaderPos
-import Umya.Thm.C09
-import Umya.Lemmas.TablesGen
-namespace Umya.Thm.C03
-open Umya.Reader Umya.Reader.Lemmas Umya.Spec.Xml Umya.XmlEsc
-
-/-! ## attribute and text values -/
-
-/-- **Attribute reading.**  For EVERY raw attribute text: if the XML reader accepts it with value
-    `v` (references well-formed and to legal characters), `get_attribute` (white-space normalisation,
-    `unescape`, normalised raw text on failure) returns exactly `v`.
-    Covers `&amp; &lt; &gt; &apos; &quot;`, decimal and hexadecimal character references of any
-    length, literal tab / LF / CR / CR LF (a blank each, 3.3.3 after 2.11) and any mixture.
-    (Before fix ddd0f34 this needed the hypothesis "no literal tab / LF / CR".) -/
-theorem C03_attr (raw v : List Char) (hv : attrValue raw = some v) : attrRead raw = v := by
-  unfold attrValue at hv
-  rw [attrLit_eq] at hv
-  have h1 := expand_ws _ none v hv
-  simp only [Option.map_none] at h1
-  have h2 := expand_agree (fun c => [c]) _ none v (fun _ _ => rfl) h1
-  simp only at h2
-  simp [attrRead, unescape, attrNorm_eq, h2]
-
-/-- the same through `get_attribute` on a raw attribute list: the first attribute named `key` -/
-theorem C03_attr_get (attrs : List (List Char × List Char)) (key raw v : List Char)
-    (hf : attrs.find? (·.1 = key) = some (key, raw)) (hv : attrValue raw = some v) :
-    getAttribute attrs key = some v := by
-  simp [getAttribute, hf, C03_attr raw v hv]
-
-/-- **Text reading** (`reader/driver.rs::unescape_text`): for EVERY raw character data the library's
-    value is the XML value: a literal CR LF / CR is one line feed (2.11), references are expanded.
-    (Before fix ddd0f34 this needed the hypothesis "no literal CR".) -/
-theorem C03_text (raw v : List Char) (hv : textValue raw = some v) : textRead raw = some v := by
-  unfold textValue at hv
-  have := expand_agree (fun c => [c]) _ none v (fun _ _ => rfl) hv
-  simpa [textRead, unescape, normEol_eq] using this
-
-/-- non-vacuity: `R&amp;D &lt;&#49;&#x3e; &quot;é&quot;` is accepted and means `R&D <1> "é"` -/
-example : attrValue "R&amp;D &lt;&#49;&#x3e; &quot;é&quot;".toList = some "R&D <1> \"é\"".toList ∧
-    attrRead "R&amp;D &lt;&#49;&#x3e; &quot;é&quot;".toList = "R&D <1> \"é\"".toList := by
-  constructor <;> decide
-
-/-- non-vacuity on literal white space: a literal line feed / CR LF inside an attribute value is a
-    blank (3.3.3), a referenced one stays.  (Replayed by the harness as `c03 reset edge 5`; before fix
-    ddd0f34 the library kept the literal characters: `C03_attr_literal_whitespace_fails`.) -/
-theorem C03_attr_literal_whitespace :
-    attrValue ['a', '\n', 'b', '\r', '\n', 'c', '&', '#', '1', '0', ';'] = some ['a', ' ', 'b', ' ', 'c', '\n'] ∧
-    attrRead ['a', '\n', 'b', '\r', '\n', 'c', '&', '#', '1', '0', ';'] = ['a', ' ', 'b', ' ', 'c', '\n'] := by
-  constructor <;> decide
-
-/-- likewise a literal CR LF in character data (XML 2.11) is one line feed and `&#13;` stays
-    (corpus aaa.xlsx; before fix ddd0f34: `C03_text_literal_cr_fails`) -/
-theorem C03_text_literal_cr :
-    textValue ['a', '\r', '\n', 'b', '\r', '&', '#', '1', '3', ';'] = some ['a', '\n', 'b', '\n', '\r'] ∧
-    textRead ['a', '\r', '\n', 'b', '\r', '&', '#', '1', '3', ';'] = some ['a', '\n', 'b', '\n', '\r'] := by
-  constructor <;> decide
-
-/-! ## `<col min max>` -/
-
-/-- **Column spans.**  After `Columns::set_attributes` column `i` carries facts `f` exactly when
-    some `<col>` element with `min ≤ i ≤ max` carries them — for any number of elements and any span
-    (`max = 16384` included). -/
-theorem C03_cols {α : Type} (cs : List (ColSpec α)) (i : Nat) (f : α) :
-    (i, f) ∈ expandCols cs ↔ ∃ c ∈ cs, c.min ≤ i ∧ i ≤ c.max ∧ f = c.facts := by
-  simp only [expandCols, expandCol, List.mem_flatMap, List.mem_map, List.mem_range'_1, Prod.mk.injEq]
-  constructor
-  · rintro ⟨c, hc, j, ⟨h1, h2⟩, rfl, rfl⟩
-    exact ⟨c, hc, h1, by omega, rfl⟩
-  · rintro ⟨c, hc, h1, h2, rfl⟩
-    exact ⟨c, hc, i, ⟨h1, by omega⟩, rfl, rfl⟩
-
-example : (16384, "w") ∈ expandCols [⟨1, 3, "a"⟩, ⟨5, 16384, "w"⟩] := by
-  rw [C03_cols]; exact ⟨⟨5, 16384, "w"⟩, by simp, by decide, by decide, rfl⟩
-
-/-! ## shared formulas -/
-
-open Umya.Formula Umya.Spec in
-/-- the piece the spec's shared-formula translator makes of a reference -/
-def pieceOfRef (r : Spec.CRef) : Spec.SharedF.Piece :=
-  match r.sheet with
-  | none => .area r.area
-  | some q => .qarea (if q.quoted then '\'' :: (Umya.Coord.replaceApos q.name ++ ['\'']) else q.name) r.area
-
-open Umya.Formula Umya.Spec in
-/-- **Shared-formula expansion, reference level, full strength.**  For every well-formed reference
-    (cell, range, whole columns / rows, any `$` flags, any position in the grid, unqualified or
-    qualified by any sheet name, quoted or not) and every offset `(dc, dr)` between a child and its
-    master — negative offsets (children left of / above the master) included —, the code translates
-    the reference token without panic, and the text it renders is exactly what the spec's
-    shared-formula translator (`Spec.SharedF.renderPiece`, i.e. `Spec.trArea`) prints for that
-    reference: `dc`/`dr` added to the relative parts, `$` parts unchanged, `#REF!` outside the grid.
-    Not covered by a theorem: that the library's tokenizer and the spec's scanner cut a whole formula
-    text into the same references (validated per file by the oracle; C09_identity_partial). -/
-theorem C03_shared_formula (r : Spec.CRef) (hw : r.WF) (dc dr : Int) :
-    ∃ t', translateTok dc dr (refTok r) = .ok t' ∧
-      renderTok t' = Spec.SharedF.renderPiece dc dr (pieceOfRef r) := by
-  refine ⟨exprTok (Spec.translateRef r dc dr), Umya.Thm.C09.C09_translate_ref r hw dc dr, ?_⟩
-  unfold Spec.translateRef pieceOfRef
-  cases hr : Spec.trArea r.area dc dr with
-  | none =>
-    cases hs : r.sheet <;>
-      simp [Spec.refOr, exprTok, renderTok, Spec.SharedF.renderPiece, hr, Spec.SharedF.refError, Spec.ErrLit.text]
-  | some a =>
-    cases hs : r.sheet with
-    | none =>
-      simp [Spec.refOr, exprTok, refTok, renderTok, Spec.SharedF.renderPiece, hr, Spec.CRef.text, hs]
-    | some q =>
-      cases hq : q.quoted <;>
-        simp [Spec.refOr, exprTok, refTok, renderTok, Spec.SharedF.renderPiece, hr, Spec.CRef.text, hs,
-          Spec.Qual.text, hq]
-
-/-- non-vacuity: `'It''s'!$B3:XFD$1048576` moved one column left and two rows down -/
-example : Umya.Thm.C09.exampleRef.WF ∧
-    Spec.SharedF.renderPiece (-1) 2 (pieceOfRef Umya.Thm.C09.exampleRef) = "'It''s'!$B5:XFC$1048576".toList := by
-  refine ⟨Umya.Thm.C09.exampleRef_wf, ?_⟩
-  simp [pieceOfRef, Umya.Thm.C09.exampleRef, Spec.SharedF.renderPiece, Spec.trArea, Spec.trCorner, Spec.trOpt,
-    Spec.trPart, Spec.maxCol, Spec.maxRow, Spec.Area.text, Spec.Corner.text, Umya.Coord.optText,
-    Umya.Coord.colRefText, Umya.Coord.rowRefText, Umya.Coord.replaceApos, Umya.Coord.indexToAlpha,
-    Umya.Coord.alphaRev, Umya.Coord.letter, Umya.Dec.decDigits, Umya.Dec.digitChar]
-
-/-! ## one cell element -/
-section Cell
-open Umya.Spec.Sml Umya.Coord
-
-/-- guess_typed_data on the `<v>` texts of the valid grammar -/
-theorem C03_value_number (v : Text) (h1 : v ≠ []) (h2 : v.map upcase ≠ ['T', 'R', 'U', 'E'])
-    (h3 : v.map upcase ≠ ['F', 'A', 'L', 'S', 'E']) (h4 : v.map upcase ∉ errorLits)
-    (h5 : Umya.Formula.parseF64Ok v = true) : guessTyped v = .num v := by
-  simp [guessTyped, h1, h2, h3, h4, h5]
-
-theorem C03_value_error (v : Text)
-    (h : v ∈ ["#DIV/0!".toList, "#N/A".toList, "#NAME?".toList, "#NULL!".toList, "#NUM!".toList, "#REF!".toList, "#VALUE!".toList]) :
-    guessTyped v = .err v := by
-  simp only [List.mem_cons, List.not_mem_nil, or_false] at h
-  rcases h with h | h | h | h | h | h | h <;> subst h <;> decide
-
-/-- non-vacuity -/
-example : guessTyped "1.50E+3".toList = .num "1.50E+3".toList := by decide
-
-/-! ### string items -/
-
-/-- **String items** (`si` of the shared-string table with `trim = false`, `is` of an inline-string
-    cell with `trim = true`).  For every element `si` that is a valid string item (`validRst`: either at
-    most one plain `t` or runs `r` with at most one `t` each; every `t` holds character data only, and
-    where the reader trims, blanks at its ends only under `xml:space="preserve"`), the text the library
-    keeps (`SharedStringItem::set_attributes` + `set_shared_string_item`: the last `t`, replaced by the
-    joined run texts when there are runs; phonetic runs `rPh` skipped) is the text ECMA-376 18.4.8
-    assigns (`rstText`: the `t` plus the `t` of every run; `rPh` is not part of the value).
-    `none` (no text at all) stands for the empty text. -/
-theorem C03_string_item (trim : Bool) (si : Node) (h : validRst trim si = true) :
-    (stringItem trim si).getD [] = rstText si :=
-  stringItem_valid trim si h
-
-/-- non-vacuity: `<is><r><t>ab</t></r><r><rPr><b/></rPr><t xml:space="preserve"> c</t></r><rPh><t>x</t></rPh></is>`
-    means `ab c` (two runs, a preserved blank, a phonetic run that is ignored) -/
-example :
-    let is_ : Node := .elem ['i', 's'] []
-      [.elem ['r'] [] [.elem ['t'] [] [.text ['a', 'b']]],
-       .elem ['r'] [] [.elem ['r', 'P', 'r'] [] [.elem ['b'] [] []],
-                       .elem ['t'] [⟨"xml:space".toList, "preserve".toList⟩] [.text [' ', 'c']]],
-       .elem ['r', 'P', 'h'] [] [.elem ['t'] [] [.text ['x']]]]
-    validRst true is_ = true ∧ rstText is_ = ['a', 'b', ' ', 'c'] := by decide
-
-/-! ### the valid cell elements -/
-
-/-- what is shown for a value: an empty text is not distinguished from no value (the driver's and the
-    harness' views do the same; DESIGN.md / props file: "below the abstraction") -/
-def shownKind (kind : String) (value : Text) : String := if kind = "s" ∧ value = [] then "" else kind
-
-/-- what `<v>` may hold for a cell type `t` (ECMA-376 18.18.11 ST_CellType):
-    `str` any text; `s` a decimal index (fitting `usize`) of an item of the table that is a valid string
-    item; `b` a lexical form of xsd:boolean; `e` an error code; absent / `n` a number (`numberOk`) -/
-def vOk (sis : List Node) (t v : Text) : Bool :=
-  if t = "str".toList then true
-  else if t = "s".toList then
-    (match natOf v with
-     | some i => decide (i < usizeBound) && (match sis[i]? with | some si => validRst false si | none => false)
-     | none => false)
-  else if t = "b".toList then boolOk v
-  else if t = "e".toList then errorCodes.contains v
-  else if t = [] ∨ t = "n".toList then numberOk v
-  else false
-
-/-- the value part of a cell: for `inlineStr` the `is` child (if any) is a valid string item (`<v>` is
-    read by neither side); for the other types `<v>` (if any) holds character data only — without blanks
-    at its ends unless the type is `str`, because the sheet reader trims them — and fits the type -/
-def valueOk (sis : List Node) (c : Node) : Bool :=
-  let t := (c.attr? "t".toList).getD []
-  if t = "inlineStr".toList then (match c.kid? "is" with | some i => validRst true i | none => true)
-  else match c.kid? "v" with
-    | some v => plainText (t ≠ "str".toList) v && vOk sis t v.ownText
-    | none => true
-
-/-- `t` is absent or one of the cell types of ST_CellType (`d`, ISO 8601 dates of the strict
-    conformance class, is outside: neither side decodes it) -/
-def tOk (t : Option Text) : Bool :=
-  match t with
-  | none => true
-  | some t => t = "n".toList || t = "s".toList || t = "str".toList || t = "b".toList || t = "e".toList || t = "inlineStr".toList
-
-/-- `s` is an unsigned decimal (the library parses it as `usize` and unwraps) -/
-def styleOk (c : Node) : Bool :=
-  match c.attr? "s".toList with
-  | some s => uintOk usizeBound s
-  | none => true
-
-/-- `<f>` holds character data only (blanks at its ends are kept by both sides); its `si` is an unsigned
-    decimal that fits `u32` (the library parses every `si` and unwraps); a `t="shared"` formula carries
-    `si` (18.3.1.40; the library would put a shared formula without `si` into group 0) -/
-def formulaOk (c : Node) : Bool :=
-  match c.kid? "f" with
-  | some f => plainText false f &&
-      (match f.attr? "si".toList with
-       | some s => uintOk u32Bound s
-       | none => f.attr? "t".toList ≠ some "shared".toList)
-  | none => true
-
-/-- the cell elements of the valid grammar (CT_Cell, 18.3.1.4), relative to the `si` elements of the
-    shared-string table: a known cell type; at most one `v`, one `f`, one `is` (the schema's
-    `f? v? is?`; the model takes the last, the spec the first); `styleOk`; `formulaOk`; `valueOk` -/
-def validCell (sis : List Node) (c : Node) : Bool :=
-  tOk (c.attr? "t".toList) && decide ((c.kids "v").length ≤ 1) && decide ((c.kids "f").length ≤ 1)
-  && decide ((c.kids "is").length ≤ 1) && styleOk c && formulaOk c && valueOk sis c
-
-/-- the statement of the per-type lemmas: the raw value the library ends up with does not panic, its
-    text is the spec's value and its kind the spec's kind -/
-def ValueAgrees (sis : List Node) (c : Node) : Prop :=
-  ∃ raw, rawOf (sis.map (stringItem false)) c = some raw ∧
-    raw.text = (decodeCell (sis.map rstText) c).1.value ∧
-    shownKind raw.kind raw.text =
-      shownKind (decodeCell (sis.map rstText) c).1.kind (decodeCell (sis.map rstText) c).1.value
-
-/-- what `valueOk` says for a cell type other than `inlineStr` -/
-theorem valueOk_v (sis : List Node) (c : Node) (t : Text) (ht : (c.attr? "t".toList).getD [] = t)
-    (hne : t ≠ "inlineStr".toList) (v : Node) (hk : c.kid? "v" = some v) (h : valueOk sis c = true) :
-    plainText (t ≠ "str".toList) v = true ∧ vOk sis t v.ownText = true := by
-  unfold valueOk at h
-  simp only [ht, hk, if_neg hne, Bool.and_eq_true] at h
-  exact h
-
-/-! ### one lemma per cell type -/
-
-/-- numbers: `t` absent or `t="n"`; `<v>` goes through `guess_typed_data` (`C03_value_number`) -/
-theorem C03_cell_number (sis : List Node) (c : Node) (ht : c.attr? "t".toList = none ∨ c.attr? "t".toList = some "n".toList)
-    (hv : (c.kids "v").length ≤ 1) (h : valueOk sis c = true) : ValueAgrees sis c := by
-  obtain ⟨t, ht', htt, hd⟩ : ∃ t, (c.attr? "t".toList).getD [] = t ∧ (t = [] ∨ t = "n".toList) ∧
-      ((decodeCell (sis.map rstText) c).1.kind = (if (vText c).isSome then "n" else "") ∧
-       (decodeCell (sis.map rstText) c).1.value = (vText c).getD []) := by
-    rcases ht with e | e
-    · exact ⟨[], by rw [e]; rfl, Or.inl rfl, decode_absent _ c e⟩
-    · exact ⟨"n".toList, by rw [e]; rfl, Or.inr rfl, decode_n _ c e⟩
-  have hne : t ≠ "inlineStr".toList := by rcases htt with e | e <;> subst e <;> decide
-  unfold ValueAgrees
-  rw [rawOf_not_inline _ c (by rw [ht']; exact hne), lastKid_eq c "v" hv, hd.1, hd.2, ht']
-  unfold vText
-  cases hk : c.kid? "v" with
-  | none => exact ⟨.empty, rfl, rfl, rfl⟩
-  | some v =>
-    obtain ⟨hp, hn⟩ := valueOk_v sis c t ht' hne v hk h
-    have hp : plainText true v = true := by
-      rcases htt with e | e <;> subst e <;> simpa using hp
-    have hn : numberOk v.ownText = true := by
-      rcases htt with e | e <;> subst e <;> simpa [vOk] using hn
-    refine ⟨.num v.ownText, ?_, rfl, rfl⟩
-    rcases htt with e | e <;> subst e <;> simp [afterV, lastText_plain true v hp, guess_number _ hn]
-
-/-- errors: `t="e"` with one of the seven error codes of 18.17.3 (`C03_value_error`) -/
-theorem C03_cell_error (sis : List Node) (c : Node) (ht : c.attr? "t".toList = some "e".toList)
-    (hv : (c.kids "v").length ≤ 1) (h : valueOk sis c = true) : ValueAgrees sis c := by
-  have hd := decode_e (sis.map rstText) c ht
-  have ht' : (c.attr? "t".toList).getD [] = "e".toList := by rw [ht]; rfl
-  unfold ValueAgrees
-  rw [rawOf_not_inline _ c (by rw [ht']; decide), lastKid_eq c "v" hv, hd.1, hd.2, ht']
-  unfold vText
-  cases hk : c.kid? "v" with
-  | none => exact ⟨.empty, rfl, rfl, rfl⟩
-  | some v =>
-    obtain ⟨hp, hn⟩ := valueOk_v sis c _ ht' (by decide) v hk h
-    have hp : plainText true v = true := by simpa using hp
-    have hn : errorCodes.contains v.ownText = true := by simpa [vOk] using hn
-    refine ⟨.err v.ownText, ?_, rfl, rfl⟩
-    simp [afterV, lastText_plain true v hp, guess_error _ hn]
-
-/-- formula strings: `t="str"`, the text as it stands (blanks at the ends included) -/
-theorem C03_cell_str (sis : List Node) (c : Node) (ht : c.attr? "t".toList = some "str".toList)
-    (hv : (c.kids "v").length ≤ 1) (h : valueOk sis c = true) : ValueAgrees sis c := by
-  have hd := decode_str (sis.map rstText) c ht
-  have ht' : (c.attr? "t".toList).getD [] = "str".toList := by rw [ht]; rfl
-  unfold ValueAgrees
-  rw [rawOf_not_inline _ c (by rw [ht']; decide), lastKid_eq c "v" hv, hd.1, hd.2, ht']
-  unfold vText
-  cases hk : c.kid? "v" with
-  | none => exact ⟨.empty, rfl, rfl, rfl⟩
-  | some v =>
-    obtain ⟨hp, _⟩ := valueOk_v sis c _ ht' (by decide) v hk h
-    have hp : plainText false v = true := by simpa using hp
-    refine ⟨.str v.ownText, ?_, rfl, rfl⟩
-    simp [afterV, lastText_plain false v hp]
-
-/-- booleans: `t="b"` with `1`, `0`, `true`, `false` (xsd:boolean) -/
-theorem C03_cell_bool (sis : List Node) (c : Node) (ht : c.attr? "t".toList = some "b".toList)
-    (hv : (c.kids "v").length ≤ 1) (h : valueOk sis c = true) : ValueAgrees sis c := by
-  have hd := decode_b (sis.map rstText) c ht
-  have ht' : (c.attr? "t".toList).getD [] = "b".toList := by rw [ht]; rfl
-  unfold ValueAgrees
-  rw [rawOf_not_inline _ c (by rw [ht']; decide), lastKid_eq c "v" hv, hd.1, hd.2, ht']
-  unfold vText
-  cases hk : c.kid? "v" with
-  | none => exact ⟨.empty, rfl, rfl, rfl⟩
-  | some v =>
-    obtain ⟨hp, hn⟩ := valueOk_v sis c _ ht' (by decide) v hk h
-    have hp : plainText true v = true := by simpa using hp
-    have hn : boolOk v.ownText = true := by simpa [vOk] using hn
-    simp only [boolOk, Bool.or_eq_true, decide_eq_true_eq] at hn
-    refine ⟨.bool (v.ownText = ['1'] ∨ v.ownText = "true".toList), ?_, ?_, ?_⟩
-    · simp [afterV, lastText_plain true v hp]
-    · rcases hn with ((e | e) | e) | e <;> simp [e, Raw.text]
-    · rcases hn with ((e | e) | e) | e <;> simp [e, Raw.text, Raw.kind, shownKind]
-
-/-- shared strings: `t="s"`, `<v>` an index into the table; the item is read by `stringItem` (plain `t`,
-    rich runs joined, phonetic runs ignored: `C03_string_item`).  Indices outside the table and
-    non-numeric `<v>` are NOT in `validCell`: the library panics there (`unwrap`), the spec reports a
-    file outside the domain -/
-theorem C03_cell_shared_string (sis : List Node) (c : Node) (ht : c.attr? "t".toList = some "s".toList)
-    (hv : (c.kids "v").length ≤ 1) (h : valueOk sis c = true) : ValueAgrees sis c := by
-  have hd := decode_s (sis.map rstText) c ht
-  have ht' : (c.attr? "t".toList).getD [] = "s".toList := by rw [ht]; rfl
-  unfold ValueAgrees
-  rw [rawOf_not_inline _ c (by rw [ht']; decide), lastKid_eq c "v" hv, hd.1, hd.2, ht']
-  unfold vText
-  cases hk : c.kid? "v" with
-  | none => exact ⟨.empty, rfl, rfl, rfl⟩
-  | some v =>
-    obtain ⟨hp, hn⟩ := valueOk_v sis c _ ht' (by decide) v hk h
-    have hp : plainText true v = true := by simpa using hp
-    have hn' : (match natOf v.ownText with
-        | some i => decide (i < usizeBound) && (match sis[i]? with | some si => validRst false si | none => false)
-        | none => false) = true := by
-      unfold vOk at hn; rw [if_neg (by decide), if_pos rfl] at hn; exact hn
-    cases hi : natOf v.ownText with
-    | none => rw [hi] at hn'; cases hn'
-    | some i =>
-      rw [hi] at hn'
-      simp only [Bool.and_eq_true, decide_eq_true_eq] at hn'
-      cases hs : sis[i]? with
-      | none => rw [hs] at hn'; exact absurd hn'.2 (by simp)
-      | some si =>
-        rw [hs] at hn'
-        have hval := stringItem_valid false si hn'.2
-        have hp' : parseUsize (lastText true v) = some i := by
-          rw [lastText_plain true v hp]; exact parseUInt_of_natOf _ _ _ hi hn'.1
-        have hsp : (sis.map rstText)[i]? = some (rstText si) := by simp [hs]
-        simp only [Option.map_some, Option.bind_some, hi, hsp, Option.getD_some]
-        cases hsi : stringItem false si with
-        | none =>
-          rw [hsi] at hval
-          refine ⟨.empty, ?_, ?_, ?_⟩
-          · simp [afterV, hp', hs, hsi]
-          · exact hval
-          · rw [← hval]; rfl
-        | some s =>
-          rw [hsi] at hval
-          refine ⟨.str s, ?_, ?_, ?_⟩
-          · simp [afterV, hp', hs, hsi]
-          · exact hval
-          · rw [← hval]; rfl
-
-theorem afterV_inline (sst : List (Option Text)) (v : Option Node) : afterV sst "inlineStr".toList v = some .empty := by
-  cases v with
-  | none => rfl
-  | some v => simp [afterV]
-
-/-- inline strings: `t="inlineStr"`, the `<is>` child read as a string item (`C03_string_item` with
-    trimming): plain `t`, rich runs `<r><t>`, phonetic runs `<rPh>` ignored; always text, whatever it
-    looks like -/
-theorem C03_cell_inline_string (sis : List Node) (c : Node) (ht : c.attr? "t".toList = some "inlineStr".toList)
-    (hi : (c.kids "is").length ≤ 1) (h : valueOk sis c = true) : ValueAgrees sis c := by
-  have hd := decode_inline (sis.map rstText) c ht
-  have ht' : (c.attr? "t".toList).getD [] = "inlineStr".toList := by rw [ht]; rfl
-  unfold valueOk at h
-  simp only [ht', if_true] at h
-  unfold ValueAgrees rawOf
-  simp only [ht', afterV_inline, Option.map_some, lastKid_eq c "is" hi, hd.1, hd.2, if_true]
-  cases hk : c.kid? "is" with
-  | none => exact ⟨.empty, rfl, rfl, rfl⟩
-  | some is_ =>
-    rw [hk] at h
-    have hval := stringItem_valid true is_ h
-    simp only [Option.map_some, Option.getD_some]
-    cases hsi : stringItem true is_ with
-    | none => rw [hsi] at hval; exact ⟨.empty, rfl, hval, by rw [← hval]; rfl⟩
-    | some s => rw [hsi] at hval; exact ⟨.str s, rfl, hval, by rw [← hval]; rfl⟩
-
-theorem cell_style (sst : List Text) (c : Node) (h : styleOk c = true) :
-    styleOf c = some (decodeCell sst c).1.style := by
-  rw [decode_style]
-  unfold styleOk at h
-  unfold styleOf
-  cases hs : c.attr? "s".toList with
-  | none => rfl
-  | some s =>
-    rw [hs] at h
-    obtain ⟨n, h1, h2⟩ := uintOk_parse _ s h
-    simp only [Option.bind_some, h1, Option.getD_some]
-    exact h2
-
-theorem cell_formula (sst : List Text) (c : Node) (hf : (c.kids "f").length ≤ 1) (h : formulaOk c = true) :
-    (lastKid? c "f").map (lastText false) = (decodeCell sst c).1.formula ∧
-    groupOf c = some (decodeCell sst c).1.shared := by
-  rw [decode_formula, decode_shared]
-  unfold groupOf
-  rw [lastKid_eq c "f" hf]
-  unfold formulaOk at h
-  cases hk : c.kid? "f" with
-  | none => exact ⟨rfl, rfl⟩
-  | some f =>
-    rw [hk] at h
-    simp only [Bool.and_eq_true] at h
-    refine ⟨by simp [lastText_plain false f h.1], ?_⟩
-    unfold sharedOf
-    cases hsi : f.attr? "si".toList with
-    | none =>
-      have h2 := h.2
-      rw [hsi] at h2
-      have h3 : f.attr? ['t'] ≠ some ['s', 'h', 'a', 'r', 'e', 'd'] := by simpa using h2
-      have hsi' : f.attr? ['s', 'i'] = none := hsi
-      simp [h3, hsi']
-    | some s =>
-      have h2 := h.2
-      rw [hsi] at h2
-      obtain ⟨n, h1, h2⟩ := uintOk_parse _ s h2
-      have h2' : parseU32 s = some n := h2
-      have hsi' : f.attr? ['s', 'i'] = some s := hsi
-      simp [h1, h2', hsi']
-
-/-- **One cell element, every cell type.**  For every `<c>` element `c` of the valid grammar
-    (`validCell`, relative to the `si` elements `sis` of the shared-string table) the model of
-    `Cell::set_attributes`, run with the table as the library reads it (`stringItem false` per item),
-    does not panic, and the cell it builds shows what `Spec.decodeCell`, run with the table as the
-    spec reads it (`rstText` per item), assigns: formula text, shared-formula group, style index,
-    reference, VALUE TEXT and KIND — for `t` absent / `n` (numbers), `s` (index into the table), `str`,
-    `b` (`1`/`0`/`true`/`false`), `e` and `inlineStr` (`<is>` with `<t>`, rich runs, phonetic runs
-    ignored), with and without `<v>`, with and without `<f>`.
-    The kind is compared through `shownKind` (an empty text = no value); `C03_cell_kind` gives plain
-    equality of the kinds whenever the value is not empty. -/
-theorem C03_cell (sis : List Node) (c : Node) (h : validCell sis c = true) :
-    ∃ r, readCell (sis.map (stringItem false)) c = some r ∧
-      r.formula = (decodeCell (sis.map rstText) c).1.formula ∧
-      r.shared = (decodeCell (sis.map rstText) c).1.shared ∧
-      r.style = (decodeCell (sis.map rstText) c).1.style ∧
-      r.ref = (decodeCell (sis.map rstText) c).1.ref ∧
-      r.raw.text = (decodeCell (sis.map rstText) c).1.value ∧
-      shownKind r.raw.kind r.raw.text =
-        shownKind (decodeCell (sis.map rstText) c).1.kind (decodeCell (sis.map rstText) c).1.value := by
-  simp only [validCell, Bool.and_eq_true, decide_eq_true_eq] at h
-  obtain ⟨⟨⟨⟨⟨⟨ht, hv⟩, hf⟩, hi⟩, hs⟩, hfo⟩, hvo⟩ := h
-  have hst := cell_style (sis.map rstText) c hs
-  obtain ⟨hform, hgrp⟩ := cell_formula (sis.map rstText) c hf hfo
-  have hval : ValueAgrees sis c := by
-    unfold tOk at ht
-    cases hta : c.attr? "t".toList with
-    | none => exact C03_cell_number sis c (Or.inl hta) hv hvo
-    | some t =>
-      rw [hta] at ht
-      simp only [Bool.or_eq_true, decide_eq_true_eq] at ht
-      rcases ht with ((((e | e) | e) | e) | e) | e <;> subst e
-      · exact C03_cell_number sis c (Or.inr hta) hv hvo
-      · exact C03_cell_shared_string sis c hta hv hvo
-      · exact C03_cell_str sis c hta hv hvo
-      · exact C03_cell_bool sis c hta hv hvo
-      · exact C03_cell_error sis c hta hv hvo
-      · exact C03_cell_inline_string sis c hta hi hvo
-  obtain ⟨raw, hr1, hr2, hr3⟩ := hval
-  refine ⟨{ ref := (c.attr? "r".toList).getD [], style := (decodeCell (sis.map rstText) c).1.style, raw := raw,
-            formula := (lastKid? c "f").map (lastText false),
-            shared := (decodeCell (sis.map rstText) c).1.shared }, ?_, hform, rfl, rfl, rfl, hr2, hr3⟩
-  unfold readCell
-  rw [hst, hgrp, hr1]
-
-/-- the kinds are equal as they stand whenever the cell has a non-empty value -/
-theorem C03_cell_kind (sis : List Node) (c : Node) (h : validCell sis c = true)
-    (hne : (decodeCell (sis.map rstText) c).1.value ≠ []) :
-    ∃ r, readCell (sis.map (stringItem false)) c = some r ∧
-      r.raw.kind = (decodeCell (sis.map rstText) c).1.kind ∧
-      r.raw.text = (decodeCell (sis.map rstText) c).1.value := by
-  obtain ⟨r, h1, _, _, _, _, h6, h7⟩ := C03_cell sis c h
-  refine ⟨r, h1, ?_, h6⟩
-  have hne' : r.raw.text ≠ [] := by rw [h6]; exact hne
-  simpa [shownKind, hne, hne'] using h7
-
-/-- the shared-string table of the non-vacuity examples: `<si><t>x</t></si>`,
-    `<si><r><t>a</t></r><r><t>b</t></r><rPh><t>y</t></rPh></si>` -/
-def exampleSis : List Node :=
-  [.elem ['s', 'i'] [] [.elem ['t'] [] [.text ['x']]],
-   .elem ['s', 'i'] [] [.elem ['r'] [] [.elem ['t'] [] [.text ['a']]], .elem ['r'] [] [.elem ['t'] [] [.text ['b']]],
-                        .elem ['r', 'P', 'h'] [] [.elem ['t'] [] [.text ['y']]]]]
-
-/-- non-vacuity of `validCell`, one cell per type:
-    `<c r="B2" s="1" t="s"><f t="shared" si="0">A1</f><v>1</v></c>` (rich shared string),
-    `<c t="inlineStr"><is><r><t>12</t></r><rPh><t>z</t></rPh></is></c>` (inline, looks like a number, no `r`),
-    `<c t="b"><v>true</v></c>`, `<c t="e"><v>#N/A</v></c>`, `<c t="str"><f> A1 </f><v> x </v></c>`,
-    `<c><v>1.5E+3</v></c>`, `<c t="n"/>` -/
-example :
-    validCell exampleSis (.elem ['c'] [⟨['r'], ['B', '2']⟩, ⟨['s'], ['1']⟩, ⟨['t'], ['s']⟩]
-      [.elem ['f'] [⟨['t'], "shared".toList⟩, ⟨['s', 'i'], ['0']⟩] [.text ['A', '1']], .elem ['v'] [] [.text ['1']]]) = true ∧
-    validCell exampleSis (.elem ['c'] [⟨['t'], "inlineStr".toList⟩]
-      [.elem ['i', 's'] [] [.elem ['r'] [] [.elem ['t'] [] [.text ['1', '2']]],
-                            .elem ['r', 'P', 'h'] [] [.elem ['t'] [] [.text ['z']]]]]) = true ∧
-    validCell exampleSis (.elem ['c'] [⟨['t'], ['b']⟩] [.elem ['v'] [] [.text "true".toList]]) = true ∧
-    validCell exampleSis (.elem ['c'] [⟨['t'], ['e']⟩] [.elem ['v'] [] [.text "#N/A".toList]]) = true ∧
-    validCell exampleSis (.elem ['c'] [⟨['t'], "str".toList⟩]
-      [.elem ['f'] [] [.text [' ', 'A', '1', ' ']], .elem ['v'] [] [.text [' ', 'x', ' ']]]) = true ∧
-    validCell exampleSis (.elem ['c'] [] [.elem ['v'] [] [.text "1.5E+3".toList]]) = true ∧
-    validCell exampleSis (.elem ['c'] [⟨['t'], ['n']⟩] []) = true := by
-  refine ⟨?_, ?_, ?_, ?_, ?_, ?_, ?_⟩ <;> decide
-
-/-- … and what the first two mean: `ab` (text, group 0, style 1, B2) and the text `12` -/
-example :
-    (readCell (exampleSis.map (stringItem false)) (.elem ['c'] [⟨['r'], ['B', '2']⟩, ⟨['s'], ['1']⟩, ⟨['t'], ['s']⟩]
-      [.elem ['f'] [⟨['t'], "shared".toList⟩, ⟨['s', 'i'], ['0']⟩] [.text ['A', '1']], .elem ['v'] [] [.text ['1']]])).map
-        (fun r => (r.raw, r.formula, r.shared, r.style, r.ref))
-      = some (.str ['a', 'b'], some ['A', '1'], some 0, 1, ['B', '2']) ∧
-    (readCell [] (.elem ['c'] [⟨['t'], "inlineStr".toList⟩]
-      [.elem ['i', 's'] [] [.elem ['r'] [] [.elem ['t'] [] [.text ['1', '2']]],
-                            .elem ['r', 'P', 'h'] [] [.elem ['t'] [] [.text ['z']]]]])).map (·.raw)
-      = some (.str ['1', '2']) := by
-  constructor <;> decide
-
-/-! ### the conjuncts of `validCell` that are there because the code deviates (concrete cells; each was
-     run against the real reader as a hand-written package, `c03 reset edge 7` / `edge 9`) -/
-
-/-- The "blanks at the ends of a `t` need `xml:space="preserve"`" clause (`validT`) is needed: the sheet
-    reader trims every text event (`trim_text(true)`), so `<c t="inlineStr"><is><t> a </t></is></c>` is
-    loaded as `a` where an XML reader passes ` a ` (known finding C03-edge-inline-t-blanks-trimmed; every
-    producer writes the attribute; the shared-strings part is read without trimming). -/
-theorem C03_cell_edge_blanks_fails :
-    let c : Node := .elem ['c'] [⟨['t'], "inlineStr".toList⟩] [.elem ['i', 's'] [] [.elem ['t'] [] [.text [' ', 'a', ' ']]]]
-    (readCell [] c).map (·.raw.text) = some ['a'] ∧ (decodeCell [] c).1.value = [' ', 'a', ' '] := by
-  constructor
-  · decide
-  · simp [decodeCell, str, rstText, Node.kid?, Node.kids, Node.children, Node.isElem, localName, Node.name, Node.attr?,
-      Node.attrs, Node.ownText]
-
-/-- The "either a plain `t` or runs" clause (`validRst`) is needed: for
-    `<c t="inlineStr"><is><t>a</t><r><t>b</t></r></is></c>` (schema-valid: CT_Rst is `t? r* rPh*`) the
-    library shows `b` (the rich text replaces the plain text in `set_shared_string_item`), the spec `ab`
-    (known finding C03-edge-rst-t-and-runs; no known producer writes both). -/
-theorem C03_cell_t_and_runs_fails :
-    let c : Node := .elem ['c'] [⟨['t'], "inlineStr".toList⟩]
-      [.elem ['i', 's'] [] [.elem ['t'] [] [.text ['a']], .elem ['r'] [] [.elem ['t'] [] [.text ['b']]]]]
-    (readCell [] c).map (·.raw.text) = some ['b'] ∧ (decodeCell [] c).1.value = ['a', 'b'] := by
-  constructor
-  · decide
-  · simp [decodeCell, str, rstText, Node.kid?, Node.kids, Node.children, Node.isElem, localName, Node.name, Node.attr?,
-      Node.attrs, Node.ownText]
-
-end Cell
-
-/-! ## positions of rows and cells that omit `r` (fix 8281a0c) -/
-section Positions
-open Umya.Spec.Sml Umya.Coord
-
-/-- the rows of a `<sheetData>` whose positions are well defined:
-    * `rowRefsOk`: a row's `r`, when present, is an unsigned decimal that fits `u32` (ST: xsd:unsignedInt;
-      the library parses it with `unwrap`);
-    * every `<c>`'s `r`, when present, is a `validRef`: 1–3 upper-case letters and a decimal row number
-      that fits `u32` (ST_CellRef; the library's regex knows no other form, and unwraps);
-    * `inGrid`: the positions the spec assigns are inside the grid (rows ≤ 1048576, columns ≤ 16384) —
-      beyond column ZZZ / row 2^32 - 1 the library panics, the spec reports a file outside the domain.
-    Nothing is asked about the ORDER of rows or cells, nor that a cell's reference names its row. -/
-def validPositions (sst : List Text) (rows : List Node) : Bool :=
-  rowRefsOk rows && rows.all (fun r => cellRefsOk (r.kids "c")) && inGrid sst 0 rows
-
-/-- **Positions.**  For every list of `<row>` elements with `validPositions` — any mixture of rows and
-    cells with and without `r`, any number of them — the model of the library's position rule
-    (`Row::set_attributes`: a row without `r` is `last_row_num + 1`; `Cell::set_attributes`: a cell
-    without `r` gets `coordinate_from_index(last_col_num + 1, row_num)`, parsed back by
-    `set_coordinate`; `last_col_num` follows the cell just read) does not panic and puts every row and
-    every cell where ECMA-376 18.3.1.73 / 18.3.1.4 put them, i.e. where the spec's `rowNumbers` /
-    `fillRefs` do (`specPositions`: per row its number and the (column, row) of each of its cells, in
-    document order). -/
-theorem C03_positions (sst : List Text) (rows : List Node) (h : validPositions sst rows = true) :
-    sheetPositions 0 rows = some (specPositions sst 0 rows) := by
-  simp only [validPositions, Bool.and_eq_true] at h
-  exact rows_agree sst rows 0 h.1.1 h.1.2 h.2
-
-/-- `<row><c/><c r="D1"/><c/></row><row r="5"><c/><c r="B5"/></row><row><c r="AA6"/><c/></row>` -/
-def exampleRows : List Node :=
-  [.elem ['r', 'o', 'w'] [] [.elem ['c'] [] [], .elem ['c'] [⟨['r'], ['D', '1']⟩] [], .elem ['c'] [] []],
-   .elem ['r', 'o', 'w'] [⟨['r'], ['5']⟩] [.elem ['c'] [] [], .elem ['c'] [⟨['r'], ['B', '5']⟩] []],
-   .elem ['r', 'o', 'w'] [] [.elem ['c'] [⟨['r'], ['A', 'A', '6']⟩] [], .elem ['c'] [] []]]
-
-/-- non-vacuity, mixing present and absent `r` on rows and cells: `exampleRows` is valid and means
-    rows 1, 5, 6 with the cells A1 D1 E1 / A5 B5 / AA6 AB6 (`alphaRev` / `decDigits` are defined by
-    well-founded recursion, hence kernel evaluation) -/
-example : validPositions [] exampleRows = true ∧
-    sheetPositions 0 exampleRows =
-      some [(1, [(1, 1), (4, 1), (5, 1)]), (5, [(1, 5), (2, 5)]), (6, [(27, 6), (28, 6)])] := by
-  constructor <;> decide +kernel
-
-end Positions
-
-/-- **Tie to the source (T).**  The white-space normalisation chains of reader/driver.rs as regenerated on
-    this run (`unescape_text`, `get_attribute_value`) are the model's `normEol` / `attrNorm`, and the reader's
-    error-literal table is `CellErrorType`'s. -/
-theorem C03_channels_match_source (s : List Char) :
-    Umya.Gen.applySteps Umya.Gen.unescape_text_normalise s = Umya.Xml.normEol s ∧
-    Umya.Gen.applySteps Umya.Gen.get_attribute_value_normalise s = attrNorm s ∧
-    Umya.Gen.cell_error_display.map (fun p => p.2.toList) = Umya.Reader.errorLits :=
-  ⟨Umya.Gen.gen_unescape_text s, Umya.Gen.gen_get_attribute_value s, Umya.Gen.gen_cell_errors.2.2⟩
-
-end Umya.Thm.C03
+import Umya.Thm.C03Cell
+import Umya.Thm.C03Sheet
